@@ -2,6 +2,7 @@ package props
 
 import (
 	"fmt"
+	"net/netip"
 	"sort"
 	"strings"
 	"sync"
@@ -169,6 +170,9 @@ func c02RandomDNSReq(c *core.Ctx, l *c02List) *gen.Req {
 		t := gen.RandomReq(c.Rng, 1)
 		q.DNSType, q.ClientName, q.ClientIP, q.Tags = t.DNSType, t.ClientName, t.ClientIP, t.Tags
 	}
+	if c.Rng.Intn(5) == 0 {
+		q.DNSType, q.ClientName, q.ClientIP, q.Tags = 0, "", netip.Addr{}, nil
+	}
 	switch c.Rng.Intn(12) {
 	case 0:
 		q.Host = "sub." + q.Host
@@ -330,6 +334,15 @@ func c02Run(c *core.Ctx, idx int) {
 		var matched bool
 		if c.Guard("DNSEngine.MatchRequest", nil, c02Witness{List: l.lines, Request: q}, func() { res, matched = eng.MatchRequest(dreq) }) {
 			continue
+		}
+		if q.DNSType == 0 && q.ClientName == "" && !q.ClientIP.IsValid() && len(q.Tags) == 0 {
+			// The convenience entry point must agree with MatchRequest.
+			r2, m2 := eng.Match(q.Host)
+			c.Eval(1)
+			if dd := c08Compare(c08DNSVerdict(res, matched, true), c08DNSVerdict(r2, m2, true), true); dd != "" || !util.EqualStrings(util.Sorted(util.Texts(res.NetworkRules)), util.Sorted(util.Texts(r2.NetworkRules))) {
+				c.Violation("entry-points-differ", nil, c02Witness{List: l.lines, Request: q, Field: "Match vs MatchRequest"}, "DNSEngine.Match(%q) differs from MatchRequest with the same hostname: %s", q.Host, dd)
+			}
+			c.Event("match_vs_matchrequest", 1)
 		}
 		d := mon.Delta(before, mon.Snapshot())
 		for n, v := range d {
